@@ -247,6 +247,10 @@ pub struct SimPlan {
     /// every scheduling point costs this much virtual time (0 = computation is free)
     #[serde(default)]
     pub step_cost_ns: u64,
+    /// host environment: the run's process is confined to this many CPUs (0 = all of them), which is
+    /// what `std::thread::available_parallelism()` then reports (a 1-vCPU VM, a container CPU limit)
+    #[serde(default)]
+    pub cpus: u8,
 }
 
 #[derive(Serialize, Deserialize, Clone, Debug, PartialEq, Eq)]
